@@ -615,6 +615,18 @@ def standard_check(ctx, std):
         monitor_failures=len(mon_fail), sanitizer_or_assert_faults=len(faults), harness_groups_failed_to_compile=len(cerr),
         operation_kinds=dict(sorted(kinds.items())), output_kinds=dict(sorted(outk.items(), key=lambda x: -x[1])[:25]),
         configurations=len(set(" ".join(c.cfg) for c in cases)), samples=sample, exhaustive=False)
+    if ctx.thorough and proof_ok and not ctx.replay and os.environ.get("VERIF_COQCHK", "1") != "0":
+        # independent re-check of the compiled theorems file and everything it depends on
+        try:
+            with _Lock("coqsession.lock"):
+                rc, o, e = run(["timeout", "1500", "coqchk", "-o", "-silent", "-Q", ".", "BT", "BT.Props.Properties_%s" % pid], cwd=COQ)
+            ax = re.findall(r"^\s*([A-Za-z0-9_.']+)\s*$", (o + e).split("Axioms:")[-1], flags=re.M) if "Axioms:" in o + e else []
+            res.coverage["coqchk"] = dict(exit=rc, axioms_of_all_loaded_libraries=ax[:40], tail=(o + e)[-400:])
+            if rc != 0:
+                res.violation("coqchk rejects Props/Properties_%s.vo or a dependency:\n%s" % (pid, (o + e)[-3000:]),
+                              "replay-coqchk.txt", no_input=True)
+        except Exception as ex:  # never let the extra checker turn a run into a crash
+            res.coverage["coqchk"] = dict(error=repr(ex))
     res.assumptions = list(std.assumptions)
     return res.finish()
 
